@@ -232,12 +232,24 @@ def rule_all_curves(ctx, R, keep=None):
       if not li["visits"]:
         continue
       it = li["visits"][0]["iter"]
-      if not (isinstance(it, _Poly) and "CURVE_FACTORY" in repr(it)[:80] and "items" in repr(it)[:120]):
+      table_loop = isinstance(it, _Poly) and "CURVE_FACTORY" in repr(it)[:80] and "items" in repr(it)[:120]
+      # ... or over the curve ids that occur in the batch itself (the partition key taken from the artifacts)
+      batch_loop = False
+      ia_ = it.as_atom() if isinstance(it, _Poly) else None
+      n_ = 0
+      while ia_ is not None and ia_.kind in ("sorted", "set", "list", "tuple") and ia_.args and n_ < 6:
+        inner_ = ia_.args[0]
+        ia_ = inner_.as_atom() if isinstance(inner_, _Poly) else None
+        n_ += 1
+      if ia_ is not None and ia_.kind == "map" and len(ia_.args) == 3 and isinstance(ia_.args[0], _Poly):
+        ea_ = ia_.args[0].as_atom()
+        batch_loop = ea_ is not None and ea_.kind == "attr" and ea_.args[1] == "curve_type" and b.artifacts is not None and ia_.args[2] == b.artifacts
+      if not (table_loop or batch_loop):
         continue
       n += 1
       probs = []
       for kind, val, st_, since, vis in li["body_paths"]:
         if kind not in ("fall", "continue"):
           probs.append("the loop over the curve table is left by `%s`: the curves after it are never examined" % kind)
-      ctx.record(R, f.where, "every curve of the table gets its turn", not probs, "; ".join(sorted(set(probs))) or "loop over CURVE_FACTORY.items() never left early")
+      ctx.record(R, f.where, "every curve of the table gets its turn", not probs, "; ".join(sorted(set(probs))) or "loop over the curve table / the batch's curve ids never left early")
   return n
